@@ -1,9 +1,13 @@
 #!/bin/bash
 # One-time build of the verification framework (offline): Lean models/proofs/driver, Go harness warm-up.
 set -e
+cd /verif
+./build_verifx.sh
+./build/verifx
 cd /verif/lean
 lake build 2>&1 | tail -3
 lake build kpmodel 2>&1 | tail -1
 cd /verif
 ./build_harness.sh
+./build_harness.sh race
 echo setup-ok
